@@ -153,6 +153,8 @@ func main() {
 		"one case = one HTTP/2 connection (fork server or fork client transport against the raw-frame peer) driven by a generated script: "+
 			"fenced scripts (exact byte counts at quiescent points), unfenced storms (ledger as upper bound), receiver-side overshoot/credit scripts, long mixed-fate histories, "+
 			"transport streams aborted (RST_STREAM / cancel) while their granted DATA frame waits for the write lock, followed by an exact connection-window count; "+
+			"SETTINGS_INITIAL_WINDOW_SIZE changes while a transport request waits for a MAX_CONCURRENT_STREAMS slot (exact first flight of the stream opened afterwards); "+
+			"server streams (responses larger than the window, uploads) continued across a graceful GOAWAY (exact counts, upload delivery, credit bound); "+
 			"distinct = distinct (rig, family, settings, op-kind sequence)")
 	if run.ReplayFile != "" {
 		replay()
@@ -169,6 +171,8 @@ func main() {
 	// the abort family first: when it refutes, it does so by a 10 s progress
 	// watchdog, which then runs next to the other cases
 	cases := abortCases()
+	cases = append(cases, parkedCases()...)
+	cases = append(cases, goawayCases()...)
 	nF := run.Pick(700, 5000)
 	for _, rigName := range []string{"S", "T"} {
 		for i := 0; i < nF; i++ {
@@ -252,6 +256,26 @@ func main() {
 			f = f2
 			f.stall = false
 		}
+		if pc, ok := s.witness.(*parkedCase); ok {
+			run.Add("isolation-reruns", 1)
+			f2 := runParked(pc)
+			if f2 == nil {
+				run.Inconclusive("%s/%s #%d: watchdog expired once (%s) but not when re-run in isolation", s.k.rig, s.k.family, s.k.index, f.msg)
+				continue
+			}
+			f = f2
+			f.stall = false
+		}
+		if gc, ok := s.witness.(*goawayCase); ok {
+			run.Add("isolation-reruns", 1)
+			f2 := runGoaway(gc)
+			if f2 == nil {
+				run.Inconclusive("%s/%s #%d: watchdog expired once (%s) but not when re-run in isolation", s.k.rig, s.k.family, s.k.index, f.msg)
+				continue
+			}
+			f = f2
+			f.stall = false
+		}
 		confirmed++
 		report(s.k, f, s.witness)
 	}
@@ -267,7 +291,22 @@ func main() {
 	creditMu.Unlock()
 	statMu.Unlock()
 	finishEvidence()
+	if os.Getenv("VERIF_C12_DEBUG") != "" { // development aid: the counters of the newer families
+		for _, k := range debugCounters {
+			fmt.Printf("[C12 debug] %s=%d\n", k, run.Counter(k))
+		}
+	}
 	run.Finish()
+}
+
+var debugCounters = []string{
+	"parked_settings_change_during_wait_confirmed", "parked_settings_change_during_wait_unconfirmed", "parked_first_flight_exact_checks", "parked_first_flight_bytes",
+	"parked_variant_decrease", "parked_variant_increase", "parked_window_decreases_during_wait", "parked_window_increases_during_wait",
+	"parked_free_respond", "parked_free_respond_replaced_by_rst", "parked_free_rst", "parked_free_cancel", "parked_free_raise", "parked_requests_completed", "parked_requests_failed_after_delivery",
+	"goaway_cases", "goaway_highest_in_flight_confirmed", "goaway_highest_in_flight_unconfirmed", "goaway_trigger_client-goaway", "goaway_trigger_conn-close",
+	"goaway_highest_resp", "goaway_highest_upload", "goaway_highest_both", "goaway_exact_checks_after_goaway", "goaway_response_bytes_after_goaway",
+	"goaway_upload_bytes_after_goaway", "goaway_uploads_verified", "goaway_credit_bound_checks", "goaway_late_stream_cases", "goaway_rst_after_goaway",
+	"goaway_responses_completed", "exact-quiescent-checks", "isolation-reruns",
 }
 
 var sampleMu sync.Mutex
@@ -308,6 +347,12 @@ func finishEvidence() {
 	run.Assume("Family abort (rig T): 'the aborted stream had been granted flow control and was waiting for the write lock' is established by logical steps: the scripted server has read part of another stream's DATA frame from the synchronous pipe and stopped (that writer is inside Write, holding cc.wmu); the request context of the waiter reports the Done() call that awaitFlowControl makes under cc.mu right before it takes the window, and ClientConn.CanTakeNewRequest (one round trip through cc.mu) returned afterwards; the abort is known to have been processed when a second frame for the stream has been taken off the pipe by the read loop (RST_STREAM) or when RoundTrip has returned (cancel). abort_while_waiting_for_write_lock_confirmed counts the aborts for which all of that was observed; whether the granted frame is still written or its bytes are returned to the connection window is left to the transport, the exact count of what upload C delivers decides.")
 	run.Require("abort_while_waiting_for_write_lock_confirmed", int64(run.Pick(20, 1500)))
 	run.Require("abort_final_exact_checks", int64(run.Pick(16, 1500)))
+	run.Assume("Family parked (rig T, Transport.StrictMaxConcurrentStreams): 'the request was waiting for a stream slot while SETTINGS_INITIAL_WINDOW_SIZE changed' is established by logical steps: as many streams as the server's MAX_CONCURRENT_STREAMS allows are open and unanswered, ClientConn.State().StreamsPending (cc.pendingRequests read under cc.mu; the waiter increments it right before cond.Wait) is 1, no HEADERS for the request have arrived after a three-PING fence; the SETTINGS ACK is read, the same two observations are made again, and only then a slot is freed. parked_settings_change_during_wait_confirmed counts the cases for which all of that was observed. The stream's ledger entry is created by its HEADERS, i.e. with the acknowledged initial window: a DATA frame beyond it is class T/parked/stream-window-ignores-settings-change, not the D17 race (no frame of a stream that did not exist can have been sized before the SETTINGS were applied).")
+	run.Require("parked_settings_change_during_wait_confirmed", int64(run.Pick(18, 1200)))
+	run.Require("parked_first_flight_exact_checks", int64(run.Pick(18, 1200)))
+	run.Require("parked_variant_decrease", int64(run.Pick(8, 500)))
+	run.Require("parked_variant_increase", int64(run.Pick(8, 500)))
+	goawayEvidence()
 }
 
 type replayFile struct {
@@ -349,6 +394,20 @@ func replay() {
 			os.Exit(2)
 		}
 		f, w = runAbort(&ac), &ac
+	case "parked":
+		var pc parkedCase
+		if err := verdict.LoadReplay(run.ReplayFile, &pc); err != nil {
+			fmt.Println("cannot read replay file:", err)
+			os.Exit(2)
+		}
+		f, w = runParked(&pc), &pc
+	case "goaway":
+		var gc goawayCase
+		if err := verdict.LoadReplay(run.ReplayFile, &gc); err != nil {
+			fmt.Println("cannot read replay file:", err)
+			os.Exit(2)
+		}
+		f, w = runGoaway(&gc), &gc
 	}
 	run.Eval(1)
 	if f != nil && f.stall {
